@@ -46,8 +46,10 @@ class Patcher:
 
     def _handle_MoveNode(self, action, tree):
         node = tree.xpath(action.node, namespaces=self.nsmap)[0]
-        node.getparent().remove(node)
+        # Both paths refer to the tree as it is before the move, so the
+        # target must be looked up before the node is detached.
         target = tree.xpath(action.target)[0]
+        node.getparent().remove(node)
         target.insert(action.position, node)
 
     def _handle_UpdateTextIn(self, action, tree):
